@@ -183,6 +183,8 @@ def check(case, obs):
         obs.label('mode_tie')
     obs.nontrivial = (case['container'] in ('rfi', 'mef') or (form == 'list' and len(sel) >= 2 and sel != sorted(sel))
                       or mode_tie)
+    from pbt.samples import fingerprint as _fp, fp_diff as _fpd
+    fp_before = _fp(x)
     for stat in STATS:
         fn = getattr(FlowCal.stats, stat)
         if stat in GEOM and not all('gmean' in refs[j] for j in range(D)):
@@ -255,6 +257,7 @@ def check(case, obs):
                   all(_agree(a_, b_, etol, max(abs(float(c)) for c in cols[j])) for a_, b_, j in
                       zip(np.atleast_1d(np.asarray(got_a)), vals, sel)),
                   lambda: '%s: plain array gives %r, sample gives %r' % (stat, got_a, got_s))
+    obs.claim('input_intact', not _fpd(fp_before, _fp(x)), lambda: 'a statistic changed its input: %r' % _fpd(fp_before, _fp(x)))
     # identities between the library's own results (all channels)
     res = {}
     for stat in STATS:
